@@ -655,8 +655,8 @@ def searches(tier: str):
         ]
     return [
         (Harness(("p", "t", "pt"), midtd_sims=("p",), label="delivery "), 6, 3),
-        (Harness(("t", "eac", "es", "tf", "cr", "tf0", "es_mv", "tf_mv", "es_h3", "eac+es", "tf+tf"), statuses=("502",),
-                 undef=False, inject=("ev",), teardown=False, midtd=True, midtd_sw=("none",), midtd_sims=ANN1, label="regions "), 4, 3),
+        (Harness(("t", "eac", "es", "tf", "cr", "tf0", "es_mv", "tf_mv", "es_h3", "eac+es", "tf+tf"), statuses=(),
+                 undef=False, inject=(), teardown=False, midtd=True, midtd_sw=("none",), midtd_sims=ANN1, label="regions "), 4, 3),
         (Harness(("p", "eac"), n_regions=2, label="multi-region ", **multi), 5, 2),
         (Harness(("p", "eac"), n_regions=3, label="multi-region(3) ", **multi), 4, 1),
     ]
